@@ -98,6 +98,8 @@ func runC13(c *Ctx) []Obligation {
 	out = append(out, c.whoMayCall(P, "node-record.deleters", "(x/nodes/keeper.Keeper).DeleteValidator",
 		[]string{kN + `(EditStakeValidator|LegacyForceValidatorUnstake|unstakeAllMatureValidators|IncrementJailedValidators|UpdateTendermintValidators)`},
 		"node records are deleted only by functions that clear the session cache (edit-stake, forced unstake, matured unstake) or that delete a record already force-unstaked by one of them (jailed-blocks sweep, validator-set update)"))
+	// the cached session must be the one any node would compute: same two-state recipe at every call site
+	out = append(out, c.sessionContextRoles(P)...)
 	return out
 }
 
